@@ -35,6 +35,18 @@ def run(ctx, replay):
     ctx.tlc("Dnssec", "MC_Dnssec.tla", "MC_DnssecPairs.cfg", workers=4 if not thorough else 8, timeout=1500, heap="8g")
     cases = cases_from(ctx, 200 if not thorough else 3000)
     cases += cases_from(ctx, 120 if not thorough else 3000, "Sim_DnssecPairs.cfg")
+    # corners of the model's case product that every run replays, whatever the seed draws: the attacks that
+    # need a whole response to be rebuilt rather than one attribute to be flipped
+    none = {"rootref": "none", "referral": "none", "dnskey": "none", "answer": "none"}
+    for zone in ("signed", "nsec3", "signed-same"):
+        for qk in ("a", "cname", "nx"):
+            for fl in ({"do": True, "ad": False, "cd": False}, {"do": False, "ad": False, "cd": False}):
+                for t in ({"dnskey": "roguekey"}, {"dnskey": "roguekey", "answer": "roguesig"}, {"rootref": "dropds"},
+                          {"rootref": "dropds", "answer": "data"}, {"rootref": "strip"}, {"answer": "fakedname"}):
+                    cases.append({"zone": zone, "qk": qk, "flags": fl, "tamper": dict(none, **t), "anchor": True,
+                                  "exp": {"rcode": "servfail", "ad": False}})
+    seen = set()
+    cases = [c for c in cases if not (repr(c) in seen or seen.add(repr(c)))]
     for c in cases:
         ctx._distinct.add("c01:%r" % (c,))
     # split into chunks so one driver process does not accumulate hundreds of resolvers
